@@ -373,7 +373,9 @@ def lstrip_namespace(s, namespaces):
     :rtype: ```AnyStr```
     """
     for namespace in namespaces:
-        s = s.lstrip(namespace)
+        # remove the prefix itself (repeatedly), not every leading character that occurs in it
+        while namespace and s.startswith(namespace):
+            s = s[len(namespace) :]
     return s
 
 
